@@ -243,6 +243,8 @@ def binding_demo(shard, declfile):
     for k in range(len(lines) // 2, len(lines)):
         ev = json.loads(lines[k])
         if ev["ev"] in ("get", "with", "set", "raw", "build", "new") and ("res" in ev or "dst_raw" in ev or "raw" in ev):
+            if ev.get("panic") or (isinstance(ev.get("res"), dict) and ev["res"].get("k") == "panic"):
+                continue        # a panic carries no value that could be corrupted
             pick = k
             break
     if pick is None:
